@@ -107,7 +107,19 @@ def run(ctx):
             schema["settings"] = {"query": {"default_field": rng.choice(["text", "a"])}}
         try:
             sa = I.schema.SchemaAnalyzer(schema)
+            # the options must not depend on which other methods of the analyzer were called before
+            pre = rng.sample(["sub_fields", "nested_fields", "object_fields", "not_analyzed_fields",
+                              "query_builder_options"], rng.choice([0, 0, 1, 2]))
+            for meth in pre:
+                r_ = getattr(sa, meth)()
+                if not isinstance(r_, dict):
+                    list(r_)
+            ctx.count("analyzer calls before the options: %d" % len(pre))
             opts = sa.query_builder_options()
+            fresh = I.schema.SchemaAnalyzer(schema).query_builder_options()
+            if opts != fresh:
+                ctx.fail("query_builder_options() depends on the methods called before on the same analyzer (%s)" % pre,
+                         {"schema": schema, "before": pre, "options": opts, "fresh": fresh})
             subs = sorted(sa.sub_fields())
         except Exception as e:
             ctx.fail("SchemaAnalyzer raised %s: %s" % (type(e).__name__, e), {"schema": schema})
